@@ -308,6 +308,15 @@ class Interp:
             return a
         if isinstance(a, StrV) and isinstance(b, StrV) and a.s == b.s:
             return a
+        if isinstance(a, _SeqAcc) and isinstance(b, _SeqAcc) and len(a.items) == len(b.items):
+            n = _SeqAcc([self.join_cond(c, x, y) for x, y in zip(a.items, b.items)])
+            n.appended, n.reaches = list(a.appended), list(a.reaches)
+            for x, r in zip(b.appended, b.reaches):
+                if not any(x is y for y in n.appended):
+                    n.appended.append(x)
+                    n.reaches.append(r)
+            n.conditional = a.conditional or b.conditional
+            return n
         if isinstance(a, Seq) and isinstance(b, Seq) and len(a.items) == len(b.items) and a.kind == b.kind:
             return Seq([self.join_cond(c, x, y) for x, y in zip(a.items, b.items)], a.kind)
         if isinstance(a, Bag) and isinstance(b, Bag):
@@ -745,7 +754,9 @@ class Interp:
                     acc = new if isinstance(new, _SeqAcc) else None
                     if acc is not None and len(acc.appended) == 1 and is_for and not acc.conditional:
                         item = acc.appended[0]
-                        arr = self._list_from_items(item, sp, iv)
+                        reach = acc.reaches[0] if acc.reaches else sym.TRUE
+                        space = sp if self.decide(reach) is True or reach == sym.TRUE else subspace(sp, reach)
+                        arr = self._list_from_items(item, space, iv)
                         post[n] = arr if not acc.items else Concat([Seq(acc.items), arr])
                         loop_rec["carried"][n] = dict(kind="list-append", elem=item)
                     elif acc is not None and not acc.appended:
@@ -1603,6 +1614,7 @@ def _clone_env(env: dict) -> dict:
             memo[k] = n
             n.items = [cl(x) for x in v.items]
             n.appended = list(v.appended)
+            n.reaches = list(v.reaches)
             n.conditional = v.conditional
             return n
         if isinstance(v, Seq):
@@ -1643,6 +1655,7 @@ class _SeqAcc(Seq):
     def __init__(self, items):
         super().__init__(list(items), "list")
         self.appended: List[Val] = []
+        self.reaches: List[Expr] = []
         self.conditional = False
 
 
